@@ -199,6 +199,25 @@ func (P *Program) Func(pkg, name string) *ssa.Function {
 	return fn
 }
 
+// MarkAnchor records functions that a rule resolved as anchors by what they do; the inlined normal
+// forms keep them as functions.
+func (P *Program) MarkAnchor(fns ...*ssa.Function) {
+	for _, fn := range fns {
+		for fn != nil && fn.Parent() != nil {
+			fn = fn.Parent()
+		}
+		if fn == nil {
+			continue
+		}
+		if o, ok := fn.Object().(*types.Func); ok {
+			if P.anchored == nil {
+				P.anchored = map[string]bool{}
+			}
+			P.anchored[o.FullName()] = true
+		}
+	}
+}
+
 func (P *Program) lookupFunc(pkg, name string) *ssa.Function {
 	sp := P.SSA[pkg]
 	if sp == nil {
